@@ -492,10 +492,30 @@ func (d *drv) random(t int, rnd *rand.Rand) {
 		}
 		return cls, ifn, tg
 	}
+	// "quiet" histories: nobody edits routes behind Felix's back and no full resync is queued after the
+	// first Apply, so Felix has to get everything right from interface events and per-interface resyncs
+	quiet := rnd.Intn(3) == 0
+	// the name of an interface that currently carries a route in the main table (else any)
+	busy := func() ifs {
+		ks := d.kernel()
+		for tries := 0; tries < 4 && len(ks) > 0; tries++ {
+			k := ks[rnd.Intn(len(ks))]
+			for _, u := range universe {
+				if u.name != "eth0" && cur[u.name] == tracelog.Int(k["ifx"]) && tracelog.Int(k["table"]) == 254 {
+					return u
+				}
+			}
+		}
+		return universe[1+rnd.Intn(len(universe)-1)]
+	}
 	steps := 15 + rnd.Intn(25)
 	connFails := 0
 	for i := 0; i < steps; i++ {
-		switch c := rnd.Intn(20); c {
+		c := rnd.Intn(20)
+		if quiet && (c >= 9 && c <= 12) {
+			c = 8 // no environment route edits / full resyncs; more interface churn instead
+		}
+		switch c {
 		case 0, 1:
 			cls, ifn, first := pick()
 			n := rnd.Intn(4)
@@ -519,6 +539,9 @@ func (d *drv) random(t int, rnd *rand.Rand) {
 			d.step(M{"op": "route_remove", "cls": cls, "ifn": ifn, "dst": tg["dst"], "prio": tg["prio"]})
 		case 6, 7:
 			u := universe[rnd.Intn(len(universe))]
+			if rnd.Intn(2) == 0 {
+				u = busy()
+			}
 			if u.name == "eth0" {
 				continue
 			}
@@ -549,7 +572,25 @@ func (d *drv) random(t int, rnd *rand.Rand) {
 				d.step(M{"op": "notify", "name": u.name})
 			}
 		case 8:
-			d.step(M{"op": "notify", "name": universe[rnd.Intn(len(universe))].name})
+			if rnd.Intn(3) == 0 {
+				d.step(M{"op": "notify", "name": universe[rnd.Intn(len(universe))].name})
+				continue
+			}
+			// flap: down (routes flushed) and up again before Felix gets to apply anything
+			u := busy()
+			if u.name == "eth0" {
+				continue
+			}
+			if idx, ok := cur[u.name]; ok {
+				d.step(M{"op": "link", "name": u.name, "idx": idx, "up": false, "flush": true})
+				if rnd.Intn(2) == 0 {
+					d.step(M{"op": "notify", "name": u.name})
+				}
+				d.step(M{"op": "link", "name": u.name, "idx": idx, "up": true, "flush": false})
+				if rnd.Intn(6) > 0 {
+					d.step(M{"op": "notify", "name": u.name})
+				}
+			}
 		case 9, 10:
 			d.step(M{"op": "ext_add", "r": rroute(live)})
 			if rnd.Intn(3) > 0 {
@@ -571,6 +612,9 @@ func (d *drv) random(t int, rnd *rand.Rand) {
 		case 14, 15:
 			names := []string{"LinkList", "LinkListEINTR", "LinkByName", "RouteList", "RouteListEINTR", "RouteListWEINTR",
 				"RouteReplace", "RouteDel", "NewNetlink", "SetSocketTimeout", "SetStrict", "LinkByNameNotFound"}
+			if quiet {
+				names = []string{"LinkByName", "RouteReplace", "RouteDel", "NewNetlink", "SetSocketTimeout", "SetStrict"}
+			}
 			fl := []any{}
 			for j := 1 + rnd.Intn(2); j > 0; j-- {
 				fl = append(fl, names[rnd.Intn(len(names))])
@@ -604,6 +648,7 @@ func (d *drv) random(t int, rnd *rand.Rand) {
 		}
 	}
 	d.step(M{"op": "fail", "flags": []any{}, "persist": false})
+	d.step(M{"op": "apply"})
 	d.step(M{"op": "resync"})
 	d.step(M{"op": "apply"})
 	d.step(M{"op": "apply"})
